@@ -310,6 +310,15 @@ Theorem c14_mt_app_model_total :
 Proof. exact mta_model_total. Qed.
 Print Assumptions c14_mt_app_model_total.
 
+(* no reachable deadlock: after ANY joint schedule prefix the life can still be brought to its end
+   (a blocked send() is released by the writer thread taking a ticket or by its exit; the join
+   becomes enabled once the channel is drained or the thread has stopped) *)
+Theorem c14_mt_app_no_deadlock :
+  forall P maxbuf frames, 0 < P -> 0 < maxbuf -> forall ops sched s,
+    exists sched2, m_done (mta_run P maxbuf frames ops (sched ++ sched2) s) = true.
+Proof. exact mta_no_deadlock. Qed.
+Print Assumptions c14_mt_app_no_deadlock.
+
 (* ----------------------------------------------------------------------------------------- *)
 (* format writers over a BGZF writer (BAM, BCF, CSI, tabix, bgzipped SAM / VCF at the level of
    their byte stream): [ops] = for each explicit operation of the format layer, the calls it
